@@ -188,18 +188,19 @@ def run(eng, R):
         cw = p.find_class("ConstraintYamlWriter").find_method("_make_representation")
 
         def accessor_by_flag(f, key, var="_yaml_doc"):
+            """[(value of the flag `relative` on the path, value written under `key` with the temporaries of the path written out)] - per path, so that an if/else, a
+            conditional expression (also inside the written value) and a flag held in a local are the same thing"""
+            from ..termform import path_exprs, subst
+
+            def pick(st):
+                if isinstance(st, ast.Assign) and len(st.targets) == 1 and isinstance(st.targets[0], ast.Subscript) and common.const_str(st.targets[0].slice) == key:
+                    return [st.value]
+                return []
+
             res = []
-            for n in ast.walk(f.node):
-                if isinstance(n, ast.Assign) and len(n.targets) == 1 and isinstance(n.targets[0], ast.Subscript) and common.const_str(n.targets[0].slice) == key:
-                    conds = common.guard_conditions(f.node, n)
-                    nf = common.conj_normal_form(conds)
-                    rel = {pol for a, pol in nf if a.endswith("relative")}
-                    val = n.value
-                    if isinstance(val, ast.IfExp) and "relative" in ast.unparse(val.test):
-                        res.append((True, ast.unparse(val.body)))
-                        res.append((False, ast.unparse(val.orelse)))
-                    else:
-                        res.append((next(iter(rel)) if len(rel) == 1 else None, ast.unparse(val)))
+            for conds, e, env in path_exprs(f.node, pick):
+                rel = {pol for t, pol in common.conj_normal_form([(t, pol) for t, pol in conds]) if t.endswith("relative")}
+                res.append((next(iter(rel)) if len(rel) == 1 else None, ast.unparse(subst(e, env))))
             return res
 
         def check_flagged(rule_key, f, key, branch_filter=None):
